@@ -37,3 +37,70 @@ MUTANTS['C16'] = [
     ('part-bounds-no-zero', T, "    return [0] + list(np.cumsum([arr.shape[0] for arr in arrs]))",
      "    return list(np.cumsum([arr.shape[0] for arr in arrs]))"),
 ]
+
+MUTANTS['C07'] = [
+    ('unstable-sort', A, "rel_spikes = np.argsort(spike_clusters, kind='mergesort')",
+     "rel_spikes = np.argsort(-spike_clusters.astype(np.int64), kind='mergesort')[::-1]"),
+    ('diff-ge', A, "    idx = np.nonzero(diff > 0)[0]", "    idx = np.nonzero(diff > 1)[0]"),
+    ('last-group-dropped', A, "    spikes_in_clusters[clusters[-1]] = abs_spikes[idx[-1]:]\n", ""),
+    ('group-end-minus1', A, "abs_spikes[idx[i]:idx[i + 1]] for i in range(len(clusters) - 1)}",
+     "abs_spikes[idx[i]:idx[i + 1] - 1] for i in range(len(clusters) - 1)}"),
+    ('isin-first-only', A, "    return np.nonzero(np.isin(spike_clusters, clusters))[0]",
+     "    return np.nonzero(spike_clusters == clusters[0])[0]"),
+    ('unique-keeps-negatives', A, "    x = x[x >= 0]\n    bc = np.bincount(x)",
+     "    x = np.abs(x)\n    bc = np.bincount(x)"),
+    ('index_of-off-by-one', A, "        tmp[lookup] = np.arange(len(lookup))",
+     "        tmp[lookup] = np.arange(1, len(lookup) + 1)"),
+    ('index_of-sorted-lookup', A, "    lookup = np.asarray(lookup, dtype=np.int32)\n",
+     "    lookup = np.sort(np.asarray(lookup, dtype=np.int32))\n"),
+    ('grouped-mean-total', A, "    return t / spike_counts.reshape((-1,) + (1,) * (arr.ndim - 1))",
+     "    return t / float(len(spike_clusters))"),
+    ('flatten-no-unique', A,
+     "    return np.unique(np.concatenate(list(per_cluster.values()))).astype(np.int64)",
+     "    return np.concatenate(list(per_cluster.values())).astype(np.int64)"),
+    ('spike_ids-ignored', A, "    abs_spikes = spike_ids[rel_spikes]", "    abs_spikes = rel_spikes"),
+]
+
+CCG = 'phylib/stats/ccg.py'
+MUTANTS['C15'] = [
+    ('mask-ge', CCG, "mask[:-shift][spike_diff_b > (winsize_bins // 2)] = False",
+     "mask[:-shift][spike_diff_b >= (winsize_bins // 2)] = False"),
+    ('binarize-round', CCG, "spike_diff_b = spike_diff // binsize",
+     "spike_diff_b = (spike_diff + binsize // 2) // binsize"),
+    ('relabel-ignores-order', CCG,
+     "    if cluster_ids is None:\n        clusters = _unique(spike_clusters)\n    else:\n        clusters = _as_array(cluster_ids)\n    n_clusters",
+     "    if cluster_ids is None:\n        clusters = _unique(spike_clusters)\n    else:\n        clusters = np.sort(_as_array(cluster_ids))\n    n_clusters"),
+    ('increment-no-repeats', CCG, "    bbins = np.bincount(indices)\n    arr[:len(bbins)] += bbins\n",
+     "    arr[indices] += 1\n"),
+    ('symmetrize-no-transpose', CCG, "    sym = np.transpose(sym, (1, 0, 2))\n", ""),
+    ('centre-sum', CCG, "np.maximum(correlograms[..., 0],\n                                      correlograms[..., 0].T)",
+     "np.add(correlograms[..., 0],\n                                      correlograms[..., 0].T)"),
+    ('firing-rate-inverse', CCG, "return bc * np.c_[bc] * (bin_size / (duration or 1.))",
+     "return bc * np.c_[bc] * ((duration or 1.) / bin_size)"),
+    ('winsize-round', CCG, "winsize_bins = 2 * int(.5 * window_size / bin_size) + 1",
+     "winsize_bins = 2 * int(round(.5 * window_size / bin_size)) + 1"),
+    ('firing-rate-no-pad', CCG, "        bc = np.concatenate((bc, np.zeros(n, dtype=bc.dtype)))",
+     "        bc = np.concatenate((np.zeros(n, dtype=bc.dtype), bc))"),
+]
+
+MUTANTS['C17'] = [
+    ('searchsorted-left', A, "    ind = np.searchsorted(chunks_kept, times, side='right')",
+     "    ind = np.searchsorted(chunks_kept, times, side='left')"),
+    ('parity-even', A, "    return ind % 2 == 1", "    return ind % 2 == 0"),
+    ('stride-floor', A, "max(1, int(ceil(n_chunks / n_chunks_kept)))",
+     "max(1, int(floor(n_chunks / n_chunks_kept)))"),
+    ('choice-with-replacement', A, "np.random.choice(spike_ids, n_spk_clu, replace=False)",
+     "np.random.choice(spike_ids, n_spk_clu, replace=True)"),
+    ('count-ge', A, "n_spk_clu > 0 and len(spike_ids) > n_spk_clu:",
+     "n_spk_clu > 0 and len(spike_ids) >= n_spk_clu + 2:"),
+    ('chunk-filter-after-count', A,
+     "            if subset_chunks:\n                spike_ids = spike_ids[_times_in_chunks(t, self.chunks_kept)]\n",
+     "            if subset_chunks and n_spk_clu is None:\n                spike_ids = spike_ids[_times_in_chunks(t, self.chunks_kept)]\n"),
+    ('subset-spikes-ignored-when-few', A,
+     "            if subset_spikes is not None:\n                spike_ids = np.intersect1d(spike_ids, subset_spikes)",
+     "            if subset_spikes is not None and len(spike_ids) > 2:\n                spike_ids = np.intersect1d(spike_ids, subset_spikes)"),
+    ('kept-chunk-one-bound', A, "            self.chunks_kept.extend(chunk_bounds[i:i + 2])",
+     "            self.chunks_kept.extend(chunk_bounds[i:i + 2] if i else chunk_bounds[i + 1:i + 3])"),
+    ('first-n-instead-of-count', A, "                spike_ids = np.random.choice(spike_ids, n_spk_clu, replace=False)",
+     "                spike_ids = spike_ids[:n_spk_clu + (len(spike_ids) > 7)]"),
+]
